@@ -5,6 +5,10 @@
 package main
 
 import (
+	"go/types"
+
+	"golang.org/x/tools/go/packages"
+
 	"bytes"
 	"encoding/json"
 	"flag"
@@ -29,12 +33,12 @@ type Mutant struct {
 }
 
 var relOps = map[token.Token][]token.Token{
-	token.LSS: {token.LEQ, token.GTR},
-	token.LEQ: {token.LSS},
-	token.GTR: {token.GEQ, token.LSS},
-	token.GEQ: {token.GTR},
-	token.EQL: {token.NEQ},
-	token.NEQ: {token.EQL},
+	token.LSS:  {token.LEQ, token.GTR},
+	token.LEQ:  {token.LSS},
+	token.GTR:  {token.GEQ, token.LSS},
+	token.GEQ:  {token.GTR},
+	token.EQL:  {token.NEQ},
+	token.NEQ:  {token.EQL},
 	token.LAND: {token.LOR},
 	token.LOR:  {token.LAND},
 }
@@ -42,9 +46,15 @@ var relOps = map[token.Token][]token.Token{
 func main() {
 	out := flag.String("out", "/tmp/kmutants", "output directory")
 	repo := flag.String("repo", "/repo", "repository")
+	flag.IntVar(&opSet, "set", 1, "operator set: 1 = first-order classics, 2 = statement swaps, shadowing, sibling fields, literals, nil-outs, dropped arms/else")
 	flag.Parse()
 	os.MkdirAll(*out, 0o755)
+	if opSet == 3 {
+		identSubst(*repo, *out, flag.Args())
+		return
+	}
 	var all []Mutant
+	seen := map[string]bool{}
 	id := 0
 	for _, rel := range flag.Args() {
 		path := filepath.Join(*repo, rel)
@@ -72,6 +82,10 @@ func main() {
 			if bytes.Equal(buf.Bytes(), src) {
 				continue
 			}
+			if seen[rel+"\x00"+buf.String()] {
+				continue
+			}
+			seen[rel+"\x00"+buf.String()] = true
 			id++
 			m.ID = id
 			m.File = rel
@@ -85,11 +99,16 @@ func main() {
 	fmt.Printf("%d mutants written to %s\n", len(all), *out)
 }
 
+var opSet = 1
+
 type point struct {
 	apply func() *Mutant
 }
 
 func collect(fset *token.FileSet, f *ast.File) []point {
+	if opSet == 2 {
+		return collect2(fset, f)
+	}
 	var pts []point
 	var curFn string
 	line := func(p token.Pos) int { return fset.Position(p).Line }
@@ -327,4 +346,281 @@ func trunc(s string) string {
 		return s[:70] + "…"
 	}
 	return s
+}
+
+// collect2: the second operator set.
+func collect2(fset *token.FileSet, f *ast.File) []point {
+	var pts []point
+	var curFn string
+	line := func(p token.Pos) int { return fset.Position(p).Line }
+	text := func(n ast.Node) string {
+		var b bytes.Buffer
+		format.Node(&b, fset, n)
+		return trunc(b.String())
+	}
+	isLog := func(n ast.Node) bool {
+		s := text(n)
+		return strings.Contains(s, ".log.") || strings.HasPrefix(s, "log.") || strings.Contains(s, "Debugf(") || strings.Contains(s, "Warnf(") || strings.Contains(s, "Errorf(") || strings.Contains(s, "Infof(")
+	}
+	simple := func(st ast.Stmt) bool {
+		switch st.(type) {
+		case *ast.ExprStmt, *ast.AssignStmt, *ast.SendStmt, *ast.IncDecStmt, *ast.GoStmt, *ast.DeferStmt:
+			return !isLog(st)
+		}
+		return false
+	}
+	// sibling fields: struct fields of the file grouped by type text
+	sib := map[string][]string{} // field -> other fields of identical type in the same struct
+	ast.Inspect(f, func(n ast.Node) bool {
+		st, ok := n.(*ast.StructType)
+		if !ok {
+			return true
+		}
+		byType := map[string][]string{}
+		for _, fl := range st.Fields.List {
+			t := text(fl.Type)
+			for _, nm := range fl.Names {
+				byType[t] = append(byType[t], nm.Name)
+			}
+		}
+		for _, names := range byType {
+			if len(names) < 2 {
+				continue
+			}
+			for _, a := range names {
+				for _, b := range names {
+					if a != b {
+						sib[a] = append(sib[a], b)
+					}
+				}
+			}
+		}
+		return true
+	})
+	depth := 0
+	var visitBlock func(list *[]ast.Stmt, nested bool)
+	visitBlock = func(list *[]ast.Stmt, nested bool) {
+		for i := range *list {
+			i := i
+			st := (*list)[i]
+			fn := curFn
+			if i+1 < len(*list) && simple(st) && simple((*list)[i+1]) {
+				pts = append(pts, point{func() *Mutant {
+					l := line(st.Pos())
+					d := "swap `" + text(st) + "` with the next statement"
+					(*list)[i], (*list)[i+1] = (*list)[i+1], (*list)[i]
+					return &Mutant{Line: l, Func: fn, Op: "swap-stmts", Desc: d}
+				}})
+			}
+			switch s := st.(type) {
+			case *ast.AssignStmt:
+				if s.Tok == token.ASSIGN && nested {
+					pts = append(pts, point{func() *Mutant {
+						l := line(s.Pos())
+						d := "`" + text(s) + "`: = → := (shadows)"
+						s.Tok = token.DEFINE
+						return &Mutant{Line: l, Func: fn, Op: "shadow", Desc: d}
+					}})
+				}
+				if len(s.Lhs) == 1 && len(s.Rhs) == 1 && s.Tok == token.ASSIGN {
+					if id, ok := s.Rhs[0].(*ast.Ident); !ok || id.Name != "nil" {
+						pts = append(pts, point{func() *Mutant {
+							l := line(s.Pos())
+							d := "`" + text(s) + "`: right-hand side → nil"
+							s.Rhs[0] = ast.NewIdent("nil")
+							return &Mutant{Line: l, Func: fn, Op: "nil-out", Desc: d}
+						}})
+					}
+				}
+			case *ast.IfStmt:
+				if s.Else != nil {
+					pts = append(pts, point{func() *Mutant {
+						l := line(s.Else.Pos())
+						s.Else = nil
+						return &Mutant{Line: l, Func: fn, Op: "drop-else", Desc: "drop the else branch of `if " + text(s.Cond) + "`"}
+					}})
+				}
+			}
+		}
+	}
+	ast.Inspect(f, func(n ast.Node) bool {
+		switch x := n.(type) {
+		case *ast.FuncDecl:
+			curFn = x.Name.Name
+			depth = 0
+			if x.Recv != nil && len(x.Recv.List) > 0 {
+				curFn = strings.TrimPrefix(text(x.Recv.List[0].Type), "*") + "." + x.Name.Name
+			}
+			if x.Body != nil {
+				visitBlock(&x.Body.List, false)
+				// nested blocks are visited with nested=true below; mark the body as seen
+				_ = x.Body.Lbrace
+			}
+		case *ast.BlockStmt:
+			visitBlock(&x.List, true)
+		case *ast.CaseClause:
+			visitBlock(&x.Body, true)
+			if len(x.List) > 0 && len(x.Body) > 0 {
+				fn := curFn
+				pts = append(pts, point{func() *Mutant {
+					l := line(x.Pos())
+					x.Body = nil
+					return &Mutant{Line: l, Func: fn, Op: "empty-case", Desc: "empty the body of a switch case"}
+				}})
+			}
+		case *ast.CommClause:
+			visitBlock(&x.Body, true)
+		case *ast.SelectStmt:
+			fn := curFn
+			for i, cl := range x.Body.List {
+				i := i
+				cc := cl.(*ast.CommClause)
+				if cc.Comm != nil && len(x.Body.List) > 1 {
+					pts = append(pts, point{func() *Mutant {
+						l := line(cc.Pos())
+						d := "remove select arm `" + text(cc.Comm) + "`"
+						x.Body.List = append(x.Body.List[:i:i], x.Body.List[i+1:]...)
+						return &Mutant{Line: l, Func: fn, Op: "remove-arm", Desc: d}
+					}})
+				}
+			}
+		case *ast.SelectorExpr:
+			fn := curFn
+			for _, other := range sib[x.Sel.Name] {
+				other := other
+				pts = append(pts, point{func() *Mutant {
+					l := line(x.Pos())
+					d := "`" + text(x) + "`: field " + x.Sel.Name + " → " + other
+					x.Sel = ast.NewIdent(other)
+					return &Mutant{Line: l, Func: fn, Op: "sibling-field", Desc: d}
+				}})
+			}
+		case *ast.BasicLit:
+			if x.Kind == token.INT {
+				fn := curFn
+				pts = append(pts, point{func() *Mutant {
+					l := line(x.Pos())
+					old := x.Value
+					switch old {
+					case "0":
+						x.Value = "1"
+					case "1":
+						x.Value = "0"
+					default:
+						x.Value = old + " + 1"
+					}
+					return &Mutant{Line: l, Func: fn, Op: "int-lit", Desc: old + " → " + x.Value}
+				}})
+			}
+		}
+		return true
+	})
+	_ = depth
+	return pts
+}
+
+// identSubst (operator set 3): replace one use of a local variable or parameter by another
+// local variable or parameter of identical type that is in scope at that point ("wrong variable",
+// "stale variable").  Needs types, so the packages are loaded with go/packages.
+func identSubst(repo, out string, rels []string) {
+	want := map[string]string{}
+	for _, r := range rels {
+		abs, _ := filepath.Abs(filepath.Join(repo, r))
+		want[abs] = r
+	}
+	cfg := &packages.Config{Mode: packages.LoadSyntax, Dir: repo, Env: append(os.Environ(), "GOFLAGS=-mod=mod", "GOWORK=off")}
+	pkgs, err := packages.Load(cfg, "./...")
+	if err != nil {
+		fmt.Fprintln(os.Stderr, err)
+		os.Exit(2)
+	}
+	var all []Mutant
+	id := 0
+	for _, pkg := range pkgs {
+		for _, f := range pkg.Syntax {
+			fname := pkg.Fset.Position(f.Pos()).Filename
+			rel, ok := want[fname]
+			if !ok {
+				continue
+			}
+			src, _ := os.ReadFile(fname)
+			type cand struct {
+				pos, end int
+				from, to string
+				line     int
+				fn       string
+			}
+			var cands []cand
+			for _, d := range f.Decls {
+				fd, ok := d.(*ast.FuncDecl)
+				if !ok || fd.Body == nil {
+					continue
+				}
+				fn := fd.Name.Name
+				if fd.Recv != nil && len(fd.Recv.List) > 0 {
+					var b bytes.Buffer
+					format.Node(&b, pkg.Fset, fd.Recv.List[0].Type)
+					fn = strings.TrimPrefix(b.String(), "*") + "." + fn
+				}
+				// local objects of the function
+				var locals []*types.Var
+				ast.Inspect(fd, func(n ast.Node) bool {
+					if idn, ok := n.(*ast.Ident); ok {
+						if v, ok := pkg.TypesInfo.Defs[idn].(*types.Var); ok && !v.IsField() && v.Name() != "_" {
+							locals = append(locals, v)
+						}
+					}
+					return true
+				})
+				lhs := map[*ast.Ident]bool{}
+				ast.Inspect(fd.Body, func(n ast.Node) bool {
+					if as, ok := n.(*ast.AssignStmt); ok {
+						for _, l := range as.Lhs {
+							if idn, ok := l.(*ast.Ident); ok {
+								lhs[idn] = true
+							}
+						}
+					}
+					return true
+				})
+				ast.Inspect(fd.Body, func(n ast.Node) bool {
+					idn, ok := n.(*ast.Ident)
+					if !ok || lhs[idn] {
+						return true
+					}
+					v, ok := pkg.TypesInfo.Uses[idn].(*types.Var)
+					if !ok || v.IsField() || v.Pkg() != pkg.Types || v.Parent() == pkg.Types.Scope() {
+						return true
+					}
+					for _, o := range locals {
+						if o == v || o.Name() == v.Name() || !types.Identical(o.Type(), v.Type()) {
+							continue
+						}
+						// o must be visible at the use: its scope contains the position and it is declared before
+						if o.Parent() == nil || !o.Parent().Contains(idn.Pos()) || o.Pos() >= idn.Pos() {
+							continue
+						}
+						if _, isIface := o.Type().Underlying().(*types.Signature); isIface {
+							continue
+						}
+						cands = append(cands, cand{pkg.Fset.Position(idn.Pos()).Offset, pkg.Fset.Position(idn.End()).Offset, v.Name(), o.Name(), pkg.Fset.Position(idn.Pos()).Line, fn})
+					}
+					return true
+				})
+			}
+			for _, cd := range cands {
+				mut := append([]byte{}, src[:cd.pos]...)
+				mut = append(mut, []byte(cd.to)...)
+				mut = append(mut, src[cd.end:]...)
+				id++
+				m := Mutant{ID: id, File: rel, Line: cd.line, Func: cd.fn, Op: "ident-subst", Desc: fmt.Sprintf("use of `%s` → `%s`", cd.from, cd.to)}
+				m.Path = filepath.Join(out, fmt.Sprintf("m%04d_%s", id, strings.ReplaceAll(rel, "/", "_")))
+				os.WriteFile(m.Path, mut, 0o644)
+				all = append(all, m)
+			}
+		}
+	}
+	data, _ := json.MarshalIndent(all, "", " ")
+	os.WriteFile(filepath.Join(out, "index.json"), data, 0o644)
+	fmt.Printf("%d mutants written to %s\n", len(all), out)
 }
